@@ -8,8 +8,6 @@ import (
 	"fmt"
 	"go/token"
 	"go/types"
-	"os"
-	"path/filepath"
 	"regexp"
 	"sort"
 	"strings"
@@ -37,8 +35,8 @@ func runC14(c *Ctx, r *Report) {
 // ---- R14.1 -----------------------------------------------------------------
 type bnfAlt struct{ syms []string }
 
-func parseBNF(path string) (map[string][]bnfAlt, map[string]string, error) {
-	b, err := os.ReadFile(path)
+func parseBNF(c *Ctx, rel string) (map[string][]bnfAlt, map[string]string, error) {
+	b, err := c.ReadRepoFile(rel)
 	if err != nil {
 		return nil, nil, err
 	}
@@ -163,8 +161,7 @@ type precLevel struct {
 
 func c14Grammar(c *Ctx, r *Report) {
 	r.Rule("R14.1", "grammar precedence: walking pkg/parsing/mlr.bnf from PrecedenceChainStart, each level is 'Self op Next' (left), 'Next op Self' (right) or 'op Self' (prefix); level order, operator lexemes and associativity equal the table of reference-dsl-operators.md; every operator lexeme of the chain has a built-in function registered under that name with that arity")
-	path := filepath.Join(c.Repo, "pkg/parsing/mlr.bnf")
-	prods, lex, err := parseBNF(path)
+	prods, lex, err := parseBNF(c, "pkg/parsing/mlr.bnf")
 	if err != nil {
 		r.Undecided("R14.1", "mlr.bnf", "", err.Error())
 		return
